@@ -32,7 +32,7 @@ from vcore import Failure, REPO
 
 PROP = "C20"
 RULE = (
-    "bounded-exhaustive: every subset of 3 translatable columns x {default, 2 languages} on the survey sheet and on the "
+    "bounded-exhaustive: every 3-choice list over 2 names x labeled/unlabeled x duplicates allowed or not; every subset of 3 translatable columns x {default, 2 languages} on the survey sheet and on the "
     "choices sheet (512 each per column triple, converted), every string within edit radius 1 of each supported sheet "
     "name over a 31-letter alphabet (+ samples of radius 2/3, case variants, underscore prefixes), language labels x "
     "bracketed-code shapes; random: generated forms with row-level triggers (disabled, comment rows, deprecated types, "
@@ -225,23 +225,6 @@ def xform_languages(xform: str) -> list:
 # --------------------------------------------------------------------------- known findings (precise shapes)
 
 
-def strip_f28(obs: list, case: dict) -> tuple[list, bool]:
-    """Remove from the implementation's misspelling warnings the candidates that are case variants of the very
-    sheet looked for, when that sheet has no data rows (F28's shape and code site)."""
-    hit = False
-    out = []
-    for o in obs:
-        if o[0] == "misspell" and not to_dict(case).get(o[1]):
-            keep = [c for c in o[2] if not (c.lower() == o[1] and c != o[1])]
-            if len(keep) != len(o[2]):
-                hit = True
-                if keep:
-                    out.append(["misspell", o[1], keep])
-                continue
-        out.append(o)
-    return out, hit
-
-
 def strip_short_langs(obs: list) -> tuple[list, bool]:
     """Remove from the *due* IANA warning the languages of fewer than 3 characters (F39's shape)."""
     hit = False
@@ -290,25 +273,18 @@ def workbook_case(ctx, case: dict, tag: str, advisory: bool = False):
     if canon(impl_obs) != canon(model_obs):
         # a repaired known defect (implementation = what is due, model = due modulo the finding's shape) is not a
         # disagreement: the model carries the defect's copy until the finding is closed
-        m2, _ = strip_f28(model_obs, case)
         s2, _ = strip_short_langs(spec_obs)
-        if canon(impl_obs) == canon(spec_obs) and canon(m2) == canon(s2):
+        if canon(impl_obs) == canon(spec_obs) and canon(model_obs) == canon(s2):
             ctx.count("known-finding-repaired-in-implementation")
         else:
             ctx.mismatch("warnings multiset: model vs implementation", case, canon(impl_obs), canon(model_obs))
     # the oracle, on the implementation's output
     if canon(impl_obs) != canon(spec_obs):
-        i2, f28 = strip_f28(impl_obs, case)
         s2, f39 = strip_short_langs(spec_obs)
-        if canon(i2) == canon(s2):
-            if f28:
-                ctx.fail(Failure("misspelling-of-present-sheet", "a present, data-less sheet is reported as a misspelling of itself",
-                                 {"kind": "workbook", "case": case}, signature="F28",
-                                 extra={"impl": canon(impl_obs), "due": canon(spec_obs)}))
-            if f39:
-                ctx.fail(Failure("iana-short-language", "a language label shorter than 3 characters has no valid code but is not reported",
-                                 {"kind": "workbook", "case": case}, signature="F39",
-                                 extra={"impl": canon(impl_obs), "due": canon(spec_obs)}))
+        if f39 and canon(impl_obs) == canon(s2):
+            ctx.fail(Failure("iana-short-language", "a language label shorter than 3 characters has no valid code but is not reported",
+                             {"kind": "workbook", "case": case}, signature="F39",
+                             extra={"impl": canon(impl_obs), "due": canon(spec_obs)}))
         else:
             extra = sorted(set(canon(impl_obs)) - set(canon(spec_obs)))
             lack = sorted(set(canon(spec_obs)) - set(canon(impl_obs)))
@@ -417,21 +393,13 @@ def misspell_direct(ctx, key: str, keys: list):
         ctx.count("misspell:unsupported")
         return
     if impl != v["model"]:
-        if (impl or []) == v["spec"] and [c for c in (v["model"] or []) if not (c.lower() in SUPPORTED and c not in SUPPORTED)] == v["spec"]:
-            ctx.count("known-finding-repaired-in-implementation")  # F28 repaired; the model still carries its copy
-        else:
-            ctx.mismatch("find_sheet_misspellings: model vs implementation", {"key": key, "keys": keys[:50]}, impl, v["model"])
+        ctx.mismatch("find_sheet_misspellings: model vs implementation", {"key": key, "keys": keys[:50]}, impl, v["model"])
     # oracle: candidates = names within distance 2 that are not a spelling of a supported sheet, not underscore-prefixed
     due = v["spec"]
     got = impl or []
     if got != due:
-        rest = [c for c in got if not (c.lower() in SUPPORTED and c not in SUPPORTED)]
-        if rest == due:
-            # direct call: the function has no notion of "sheet has data"; the case-variant shape is F28's
-            ctx.count("misspell:case_variant_reported")
-        else:
-            ctx.fail(Failure("misspelling-candidates", f"key {key}: reported {got[:6]} due {due[:6]}",
-                             {"kind": "misspell", "key": key, "keys": keys}, signature="misspell-direct"))
+        ctx.fail(Failure("misspelling-candidates", f"key {key}: reported but not due {[c for c in got if c not in due][:6]}, due but not reported {[c for c in due if c not in got][:6]}",
+                         {"kind": "misspell", "key": key, "keys": keys}, signature="misspell-direct"))
 
 
 def misspell_cases(ctx, factor):
@@ -742,6 +710,16 @@ def triggered_form(rng, big=False) -> dict:
             extra_col = rng.choice(["audio", "image", "label"]) + "::" + rng.choice(langs)
             for c in choices:
                 c[extra_col] = "x.mp3"
+        if rng.random() < 0.3:
+            # repeated choice names within a list (accepted only with allow_choice_duplicates), labeled or not
+            allow = rng.random() < 0.8
+            for _ in range(rng.randint(1, 3)):
+                src = rng.choice(choices)
+                dup = {k: v for k, v in src.items() if not (k.startswith("label") and rng.random() < 0.6)}
+                choices.insert(rng.randint(choices.index(src) + 1, len(choices)), dup)
+            if allow:
+                st0 = (form.get("settings") or [{}])[0]
+                form["settings"] = [dict(st0, allow_choice_duplicates=rng.choice(["yes", "Yes", "true()"]))]
         case["choices"] = choices
     if external and choices:
         case["external_choices"] = [{"list_name": c["list_name"], "name": c["name"], "state": "1"} for c in choices]
@@ -776,8 +754,32 @@ def triggered_form(rng, big=False) -> dict:
     return case
 
 
+def choice_list_enum(ctx):
+    """All lists of 3 choices over names {a, b} x labeled / unlabeled (64), with duplicates allowed and not allowed,
+    interleaved with a second list: which rows get the 'should have a label' warning."""
+    for names in itertools.product("ab", repeat=3):
+        for labeled in itertools.product((True, False), repeat=3):
+            for allow in ("yes", None):
+                rows = []
+                for i, (n, lab) in enumerate(zip(names, labeled)):
+                    rows.append({"list_name": "l1", "name": n, **({"label": f"L{i}"} if lab else {})})
+                    if i == 0:
+                        rows.append({"list_name": "l2", "name": "a", "label": "other list"})
+                rows.append({"list_name": "l2", "name": "a", **({} if labeled[0] else {"label": "x"})})
+                case = {
+                    "survey": [{"type": "select_one l1", "name": "q1", "label": "Q1"},
+                               {"type": "select_multiple l2", "name": "q2", "label": "Q2"}],
+                    "choices": rows,
+                }
+                if allow:
+                    case["settings"] = [{"allow_choice_duplicates": allow}]
+                ctx.count("choice_enum:cases")
+                workbook_case(ctx, case, "choice_enum")
+
+
 def directed_cases(ctx):
-    """F28's witness and its neighbours (also through the md reader)."""
+    """The former F28 witness (a present, data-less sheet spelled in another letter case) and its neighbours, also
+    through the md reader; short / coded / uncoded language labels."""
     base = {"survey": [{"type": "note", "name": "n", "label": "a"}]}
     for nm in ("Settings", "settings", "SETTINGS", "setting"):
         case = dict(base, settings=[], settings_cols=["form_title"], sheet_names=["survey", nm])
@@ -793,7 +795,7 @@ def directed_cases(ctx):
         for l in langs:
             row["label::" + l] = "L " + l
         workbook_case(ctx, {"survey": [row]}, "directed")
-    # md route of the F28 witness (the sheet is really present in the file)
+    # md route (the sheet is really present in the file)
     from pyxform.xls2xform import convert
 
     md = "| survey |\n| | type | name | label |\n| | note | n | a |\n| %s |\n| | form_title |\n"
@@ -801,11 +803,8 @@ def directed_cases(ctx):
         w = convert(xlsform=md % nm, file_type=".md").warnings
         ctx.count("directed:md")
         if len(w) != due:
-            if nm == "Settings" and len(w) == 1 and "'Settings'" in w[0]:
-                ctx.fail(Failure("misspelling-of-present-sheet", "md: a present, header-only sheet `Settings` is reported as a misspelling of settings",
-                                 {"kind": "md", "sheet": nm}, signature="F28"))
-            else:
-                ctx.fail(Failure("warnings-differ", f"md sheet {nm}: {w}", {"kind": "md", "sheet": nm}, signature="md-directed"))
+            ctx.fail(Failure("warnings-differ", f"md: sheet spelled {nm!r} without data rows: {len(w)} warning(s), {due} due: {w}",
+                             {"kind": "md", "sheet": nm}, signature="md-directed"))
 
 
 # --------------------------------------------------------------------------- explore / replay
@@ -814,6 +813,7 @@ def directed_cases(ctx):
 def explore(ctx, factor, bs):
     rng = ctx.rng
     directed_cases(ctx)
+    choice_list_enum(ctx)
     lev_cases(ctx, ctx.pick(3000, 40000) * factor)
     misspell_cases(ctx, factor)
     header_cases(ctx, ctx.pick(1500, 20000) * factor)
@@ -857,7 +857,6 @@ def replay(ctx, payload, bs):
 
 
 MATCHERS = {
-    "F28-settings-case-misspelling": lambda f: f.signature == "F28" and f.kind == "misspelling-of-present-sheet",
     "F39-iana-short-language": lambda f: f.signature == "F39" and f.kind == "iana-short-language",
 }
 
